@@ -82,7 +82,7 @@ def idle_scenario(r, it, tier):
     sim.ka_senders = {"srv_off": ("c",), "cli_off": ("s",)}.get(asym, ("c", "s"))
     return sim
 
-def early_disconnect_scenario(r, it, tier):
+def early_disconnect_scenario(r, it, tier, idx=None):
     """a disconnect request issued 0..3 s after the handshake (stale handshake timers still queued) towards a peer
     that has just gone silent: the request must be repeated 10 times, 2 s apart, and time out 22 s after its first copy."""
     sim = EpSim(r, inter=it)
@@ -107,9 +107,14 @@ def early_disconnect_scenario(r, it, tier):
             break
         sim.run(1, dt, nets)
     wait = r.pick([0, 300_000_000, 1_000_000_000, 1_700_000_000, 1_900_000_000, 2_500_000_000, 3_500_000_000])
+    who = r.pick(["sdiscnow", "sdisc", "cdiscnow", "cdisc"])
+    if idx is not None:
+        # the cases of one run cover every caller / mode, each at least once less than 2 s after the handshake began
+        who = ["sdiscnow", "sdisc", "cdiscnow", "cdisc"][idx % 4]
+        if idx < 4:
+            wait = [0, 300_000_000, 1_000_000_000, 1_700_000_000][(idx + wait // 10**8) % 4]
     if wait:
         sim.run(max(1, int(wait // dt)), dt, nets)
-    who = r.pick(["sdiscnow", "sdisc", "cdiscnow", "cdisc"])
     sim.call(who, 0)
     sim.early = who
     silent = {"c2s": Net(loss=1000), "s2c": Net(loss=1000)} if who[0] == "s" else {"c2s": Net(loss=1000), "s2c": Net(loss=1000)}
@@ -146,6 +151,7 @@ def streams(rng, tier, ctx):
     n = 36 if tier == "quick" else 360
     it = Interactive("ep")
     cases = []; meta = {}
+    n_early = [0]
     try:
         for i in range(n):
             r = rng.fork()
@@ -155,10 +161,10 @@ def streams(rng, tier, ctx):
                 sim = handshake_delay_scenario(r, it, tier)
             elif fam == 1:
                 sim = idle_scenario(r, it, tier)
-            elif fam == 5:
+            elif fam == 5 and i % 12 == 5:
                 sim = busy_server_scenario(r, it, tier)
-            elif fam == 4:
-                sim = early_disconnect_scenario(r, it, tier)
+            elif fam >= 4:
+                sim = early_disconnect_scenario(r, it, tier, idx=n_early[0]); n_early[0] += 1
             else:
                 sim = E.general_scenario(r, it, tier, variants=True, forge=False, disconnects=(fam == 3), dt_choices=(50_000_000, 500_000_000, 1_000_000_000))
                 sim.run(30, 1_000_000_000, {"c2s": Net(loss=1000), "s2c": Net(loss=1000)}, None)
